@@ -171,7 +171,8 @@ def gen_single_cases(tier, rng, emphasis):
     for _ in range(nrand):
         depth = rng.choice([0, 1, 1, 2, 3]) if emphasis in ("initial", "nested") else rng.choice([0, 0, 1, 2])
         cfg = slevel.gen_config(rng, depth=depth)
-        devs = slevel.gen_devs(rng, cfg)
+        # callbacks: also devices that ask to be re-evaluated at once (a callback at the time of the update itself)
+        devs = slevel.gen_devs(rng, cfg, (0, 0, 1, 2, 3, 4, 5)) if emphasis == "callbacks" else slevel.gen_devs(rng, cfg)
         speed = rng.choice([(1, 1), (1, 1), (2, 1), (1, 2)])
         stim = gen_stim(rng, cfg, devs)
         # callbacks: also negative initial times, so that callback chains pass through (and fall due at) simulation time 0
@@ -265,12 +266,13 @@ def main_pairs(pid, tier, seed, prop_codes, prop_mod, serving_files, what, mode,
     pairs = []
     if mode == "flatten":
         base = [dict(cfg=c, devs=slevel.gen_devs(rng, c, (0, 1, 4)), speed=(1, 1), initial=0, stim=[]) for c in small_nestings()]
+        base += [dict(cfg=c, devs=slevel.gen_devs(rng, c, (0, 5, 5, 1)), speed=(1, 1), initial=0, stim=[]) for c in small_nestings()[::3]]
         base += [c for c in load_corpus() if slevel.depth_of(c["cfg"]) > 1]
         for _ in range({"quick": 60, "thorough": 1000}[tier]):
             cfg = slevel.gen_config(rng, depth=rng.choice([1, 1, 2, 3]), p_sys=0.5)
             if slevel.depth_of(cfg) < 2:
                 continue
-            devs = slevel.gen_devs(rng, cfg)
+            devs = slevel.gen_devs(rng, cfg, (0, 0, 1, 2, 3, 4, 5))
             base.append(dict(cfg=cfg, devs=devs, speed=rng.choice([(1, 1), (2, 1), (1, 2)]), initial=0,
                              stim=gen_stim(rng, cfg, devs, allowed=(0, 1, 4))))
         for b in base:
